@@ -696,10 +696,78 @@ def replay_coef_wrapper(version, order, pinds, i):
     return replay
 
 
+# ------------------------------------------------------------------ the column requirements of the l+1 steps, established at their Python call sites
+def unit_l1_wrappers(ctx):
+    """C05 / C10 verify add_lp1_* under the requires 'four distinct columns ig, ix, iy, iz in [0, nf)' (and rows of length nf).  Here the real
+    wrappers of LCAOInterpolator(Direct) are executed up to the ctypes call, with n0 symbolic, and that requires clause is proved for what they pass."""
+    from pyvc.interp import ClassV
+    IMOD_ = "ciderpress.dft.lcao_interpolation"
+    it = ctx.interp
+    im = it.load_module(IMOD_)
+    libc = im.ns["libcider"]
+    seen = []
+    fns = ("add_lp1_term_fwd", "add_lp1_term_bwd", "add_lp1_term_grad", "add_lp1_onsite_new_fwd", "add_lp1_onsite_new_bwd")
+    for fn in fns:
+        it.externals["%s.%s" % (libc.name, fn)] = (lambda name: (lambda interp, *a: seen.append((name,) + a)))(fn)
+    n0 = tm.var("n0", "I")
+    H = [tm.mk_le(tm.ZERO, n0)]
+    it.hyps = list(H)
+    ctx.assume("l1 wrappers: proved for every n0 >= 0 and for n1 = 1 .. 4 separately (the loop over range(n1) is executed, not summarised)")
+    ng = 3
+    for clsname in ("LCAOInterpolator", "LCAOInterpolatorDirect"):
+        cls = im.ns[clsname]
+        for n1 in (1, 2, 3, 4):
+            o = Obj(cls)
+            mk = lambda name, **f: (lambda x: (x.fields.update(f), x)[1])(Obj(ClassV(name, [], im)))
+            gi = mk("_GI", iatom_list=np.zeros(ng, dtype=int), rad_arr=sym_array("rad", (2,)), rad_loc=np.array([0, 1, ng]), nrad=2, dirs=sym_array("dirs", (2, 3)), ylm_loc=np.array([0, 1]))
+            o.fields.update({"_n0": n0, "_n1": n1, "all_coords": sym_array("xyz", (ng, 3)), "atco": mk("_ATCO", natm=2), "grids_indexer": gi})
+            try:
+                nout = it.getattr(o, "num_out")
+            except (Unsupported, PyRaise) as e:
+                ctx.undecided("%s.num_out" % clsname, str(e)[:200], [IMOD_ + ":%s.num_out" % clsname])
+                continue
+            # callers hand over arrays with num_out columns (project_orb2grid / project_grid2orb allocate (ngrids, num_out)); concrete width for the model
+            # of the array, the column arithmetic stays symbolic in n0
+            f_gq = sym_array("f", (ng, 4))
+            calls = [("_call_l1_fill", [f_gq, sym_array("ac", (3,)), True]), ("_call_l1_fill", [f_gq, sym_array("ac", (3,)), False]),
+                     ("_call_l1_fill_grad", [sym_array("ex", (2, 3)), f_gq, f_gq.copy(), 0])]
+            if clsname == "LCAOInterpolatorDirect":
+                calls += [("_run_onsite_lp1", [f_gq, True]), ("_run_onsite_lp1", [f_gq, False])]
+            for meth, args in calls:
+                del seen[:]
+                fq = [IMOD_ + ":%s.%s" % (clsname if meth == "_run_onsite_lp1" else "LCAOInterpolator", meth), IMOD_ + ":LCAOInterpolator.num_out"]
+                tag = "%s.%s[n1=%d%s]" % (clsname, meth, n1, "" if len(args) < 3 or not isinstance(args[-1], bool) else ",fwd=%s" % args[-1])
+                try:
+                    it.call_method(o, meth, list(args))
+                except (Unsupported, PyRaise) as e:
+                    ctx.undecided("%s runs" % tag, str(e)[:200], fq)
+                    continue
+                ctx.holds("%s: one C call per l=1 feature" % tag, len(seen) == n1, "%d calls" % len(seen), fq)
+                for k, call in enumerate(seen):
+                    ints = [tm.lift(x) for x in call[1:] if isinstance(x, (int, np.integer)) or (isinstance(x, tm.T))]
+                    # the last five scalar arguments are (ig, ix, iy, iz, nf) for the add_lp1_term family, (nf, ig, ix, iy, iz) for the onsite family
+                    if call[0].startswith("add_lp1_onsite"):
+                        nf_, ig_, ix_, iy_, iz_ = ints[-5:]
+                    else:
+                        ig_, ix_, iy_, iz_, nf_ = ints[-5:]
+                    # nf handed over is the width of the array model; the requirement is stated against the interpolator's own width num_out
+                    cols = {"ig": ig_, "ix": ix_, "iy": iy_, "iz": iz_}
+                    for cn, cv in cols.items():
+                        ctx.valid("%s call %d: column %s lies in [0, num_out)" % (tag, k, cn), H, tm.mk_and(tm.mk_le(tm.ZERO, cv), tm.mk_lt(cv, tm.lift(nout))), fq)
+                    names = list(cols)
+                    for a_ in range(4):
+                        for b_ in range(a_ + 1, 4):
+                            ctx.valid("%s call %d: columns %s and %s are distinct" % (tag, k, names[a_], names[b_]), H, tm.mk_not(tm.mk_eq(cols[names[a_]], cols[names[b_]])), fq)
+                    ctx.holds("%s call %d: row length handed over is the width of the array" % (tag, k), nf_ is tm.lift(f_gq.shape[1]) or nf_ == tm.lift(f_gq.shape[1]), "%s" % (nf_,), fq)
+    ctx.canary_valid("l1 wrappers canary (ig would coincide with ix for a too narrow array)", H, tm.mk_lt(n0 + 3, n0 + 3))
+    for fn in fns:
+        it.externals.pop("%s.%s" % (libc.name, fn), None)
+
+
 def units():
     u = [("semilocal", unit_semilocal), ("other-lengths", unit_other_lengths), ("feature-settings", unit_feature_settings),
          ("reject-params", unit_reject_params), ("reject-plans", unit_reject_plans), ("reject-shapes", unit_reject_shapes),
-         ("c-extents", unit_c_extents), ("coef-wrappers", unit_coef_wrappers)]
+         ("c-extents", unit_c_extents), ("coef-wrappers", unit_coef_wrappers), ("l1-wrappers", unit_l1_wrappers)]
     for v in ("i", "j", "ij", "k"):
         u.append(("nldf-lengths/" + v, unit_nldf_lengths(v)))
     return u
